@@ -3,9 +3,10 @@ import TboxModel.C20.WModel
 import TboxModel.C20.HistProofs
 namespace Tbox.C20
 
-/-- while enabled with clean ghost flags, the armed target lies strictly after the last served instant -/
+/-- while enabled (and never armed outside the no-wrap range), the armed target lies strictly after the
+last served instant -/
 def KInv (a : Alarm) : Prop :=
-  a.st = .running → a.early = false → a.wrapped = false → a.lastServed < a.target
+  a.st = .running → a.wrapped = false → a.lastServed < a.target
 
 /-- everything the world keeps true of each alarm -/
 structure AInv (a : Alarm) : Prop where
@@ -17,19 +18,19 @@ theorem kinv_of_idle {a : Alarm} (h : a.st ≠ .running) : KInv a := fun hr => a
 
 theorem activeTimer_K (a : Alarm) (e : Env) (hs : a.sod < D) (hk : KInv a) : KInv (activeTimer a e).1 := by
   rcases activeTimer_cases a e with ⟨hok, _, _⟩ | ⟨_, heq⟩
-  · cases hc : calcNext a e.cal (addOff (max e.sec a.target) a.offset) with
+  · cases hc : calcNext a e.cal (addOff (a.base e) a.offset) with
     | none => rw [activeTimer_of_none a e hc] at hok; cases hok
     | some nl =>
-      intro _ he hw
-      rw [activeTimer_of_some a e nl hc] at he hw ⊢
-      simp only [armed, Bool.or_eq_false_iff, decide_eq_false_iff_not, Bool.not_eq_false', decide_eq_true_eq] at he hw
+      intro _ hw
+      rw [activeTimer_of_some a e nl hc] at hw ⊢
+      simp only [armed, Bool.or_eq_false_iff, Bool.not_eq_false', decide_eq_true_eq] at hw
       obtain ⟨_, _, _, _, heq, _, h2, _, _⟩ := activeTimer_spec a e hs hw.2 (by rw [activeTimer_of_some a e nl hc])
       rw [activeTimer_of_some a e nl hc] at heq
       have hT : (armed a e (subOff nl a.offset) (delayMs (w32 (subOff nl a.offset + U32 - e.sec)) e.ms)).target = _ :=
         congrArg (fun p => p.1.target) heq
       simp only [armed_target] at hT ⊢
       simp only [armed_lastServed]
-      have := he.2
+      have := (base_ge a e).2.2
       omega
   · rw [heq]; exact hk
 
@@ -57,15 +58,15 @@ theorem initAlarm_ainv (a : Alarm) (sod : Int) (m : List Bool) (wd : Bool) (h : 
         · exact kinv_of_idle (by simp)
 
 theorem ainv_congr {a b : Alarm} (h : AInv a) (h1 : b.st = a.st) (h2 : b.timer = a.timer) (h3 : b.sod = a.sod)
-    (h4 : b.early = a.early) (h5 : b.wrapped = a.wrapped) (h6 : b.lastServed = a.lastServed) (h7 : b.target = a.target) : AInv b :=
-  ⟨inv_congr h1 h2 h.inv, by rw [h3]; exact h.sod, by unfold KInv; rw [h1, h4, h5, h6, h7]; exact h.k⟩
+    (h5 : b.wrapped = a.wrapped) (h6 : b.lastServed = a.lastServed) (h7 : b.target = a.target) : AInv b :=
+  ⟨inv_congr h1 h2 h.inv, by rw [h3]; exact h.sod, by unfold KInv; rw [h1, h5, h6, h7]; exact h.k⟩
 
 theorem activeTimer_ainv (a : Alarm) (e : Env) (h : AInv a) : AInv (activeTimer a e).1 :=
   ⟨activeTimer_inv a e h.inv, by rw [(activeTimer_fields a e).2.2.2.2.2]; exact h.sod, activeTimer_K a e h.sod h.k⟩
 
 theorem subscribe_ainv (a : Alarm) (h : AInv a) : AInv (subscribe a) := by
   unfold subscribe; split
-  · exact ainv_congr h rfl rfl rfl rfl rfl rfl rfl
+  · exact ainv_congr h rfl rfl rfl rfl rfl rfl
   · exact h
 
 theorem enable_ainv (a : Alarm) (e : Env) (h : AInv a) : AInv (enable a e).1 := by
@@ -74,7 +75,7 @@ theorem enable_ainv (a : Alarm) (e : Env) (h : AInv a) : AInv (enable a e).1 := 
   · have := activeTimer_ainv _ e (subscribe_ainv a h)
     simp only
     split
-    · exact ainv_congr this rfl rfl rfl rfl rfl rfl rfl
+    · exact ainv_congr this rfl rfl rfl rfl rfl rfl
     · exact this
   · exact h
 
@@ -140,7 +141,7 @@ theorem get_put_ne (w : World) {j i : Nat} (x : Option Alarm) (h : i ≠ j) : (w
 structure WInv (w : World) : Prop where
   alarms : ∀ j a, w.get j = some a → AInv a
   watch : ∀ j, j ∈ w.watch → (w.get j).isSome = true
-  log : ∀ ev, ev ∈ w.log → ev.wasRunning = true ∧ (ev.flagsClear = true → ev.prev < ev.instant)
+  log : ∀ ev, ev ∈ w.log → ev.wasRunning = true ∧ (ev.inRange = true → ev.prev < ev.instant)
 
 theorem wInit_inv : WInv wInit := by
   refine ⟨?_, by simp [wInit], by simp [wInit]⟩
@@ -317,15 +318,15 @@ theorem wFire_inv (w : World) (j : Nat) (h : WInv w) (hc : canFire w j = true) :
   have h1 := winv_put w j (expire a w.env).1 h (expire_ainv a w.env ha)
   have h2 : WInv { w.put j (some (expire a w.env).1) with
       log := { slot := j, instant := (expire a w.env).2.1, prev := a.lastServed, wasRunning := (expire a w.env).2.2,
-               flagsClear := !a.early && !a.wrapped } :: w.log } := by
+               inRange := !a.wrapped } :: w.log } := by
     refine ⟨h1.alarms, h1.watch, ?_⟩
     intro ev hev
     simp only [List.mem_cons] at hev
     rcases hev with hev | hev
     · subst hev
-      simp only [expire_served, hrun, decide_true, Bool.and_eq_true, Bool.not_eq_eq_eq_not, Bool.not_true, true_and]
+      simp only [expire_served, hrun, decide_true, Bool.not_eq_eq_eq_not, Bool.not_true, true_and]
       intro hf
-      exact ha.k hrun hf.1 hf.2
+      exact ha.k hrun hf
     · exact h.log ev hev
   split
   · exact runScript_inv _ _ h2
@@ -349,7 +350,7 @@ theorem wOp_inv (w : World) (o : WOp) (h : WInv w) : WInv (wOp w o).1 := by
     | none => simp only [wOp, hg]; exact h
     | some a =>
       simp only [wOp, hg]
-      exact winv_put w j _ h (ainv_congr (b := setTimezone a m) (h.alarms j a hg) rfl rfl rfl rfl rfl rfl rfl)
+      exact winv_put w j _ h (ainv_congr (b := setTimezone a m) (h.alarms j a hg) rfl rfl rfl rfl rfl rfl)
   | enable j => exact wEnable_inv w j h
   | disable j => exact wDisable_inv w j h
   | refresh j => exact wRefresh_inv w j h
@@ -359,7 +360,7 @@ theorem wOp_inv (w : World) (o : WOp) (h : WInv w) : WInv (wOp w o).1 := by
     | none => simp only [wOp, hg]; exact h
     | some a =>
       simp only [wOp, hg]
-      exact winv_put w j _ h (ainv_congr (b := { a with hasCb := true }) (h.alarms j a hg) rfl rfl rfl rfl rfl rfl rfl)
+      exact winv_put w j _ h (ainv_congr (b := { a with hasCb := true }) (h.alarms j a hg) rfl rfl rfl rfl rfl rfl)
   | destroy j => exact wDestroy_inv w j h
   | calMask m => exact (wCalUpdate_inv w _ h).1
   | calSp sp => exact (wCalUpdate_inv w _ h).1
